@@ -3,7 +3,7 @@
   ops:  W wh <code> | W w <len> <fwd> | W fl | W bf <id> | W st | W sz | W wr | END
   out:  `<obs> <status> <size> <written> <#under>`; END prints the whole underlying trace.
 -/
-import Flamego.Model.Writer
+import Flamego.Model.WriterNest
 import Flamego.Driver.Common
 namespace Flamego.Driver.Writer
 open Flamego.Writer
@@ -40,5 +40,37 @@ def session (args : List String) (lines : List (List String)) : List String :=
           let w' := step w op
           s!"{observe w' op} {w'.status} {w'.size} {if w'.written then 1 else 0} {w'.under.length}" :: go w' rest
   "new" :: go (init head) lines
+
+/-! `NEW writer2 <outer method> <inner method>` sessions: the inner writer wraps the outer one (Model/WriterNest).
+    ops:  W o <op…> | W i <op…> | END      (the single-writer ops, addressed to the outer / the inner writer)
+    out:  `<obs> <status size written of the outer> <status size written of the inner> <#events so far>` -/
+
+def showNEv : NEv → String
+  | .client e => showEv e
+  | .ihook h => s!"ihook{h}:0"
+
+def b01 (b : Bool) : Nat := if b then 1 else 0
+
+def session2 (args : List String) (lines : List (List String)) : List String :=
+  let oh := args.head? == some "HEAD"
+  let ih := args[1]? == some "HEAD"
+  let rec go (n : Nest) : List (List String) → List String
+    | [] => []
+    | l :: rest =>
+      if l == ["END"] then
+        (if n.log.isEmpty then "trace none" else "trace " ++ joinWith "," (n.log.map showNEv)) :: go n rest
+      else match l with
+        | "W" :: lvl :: op =>
+          if lvl != "o" && lvl != "i" then "bad-op" :: go n rest
+          else match parseOp ("W" :: op) with
+          | none => "bad-op" :: go n rest
+          | some op =>
+            let inner := lvl == "i"
+            let n' := n.step (inner, op)
+            -- `Write` on the inner writer returns what the outer writer reported back
+            let obs := if inner then observe n'.i (innerOp n.o op) else observe n'.o op
+            s!"{obs} {n'.o.status} {n'.o.size} {b01 n'.o.written} {n'.i.status} {n'.i.size} {b01 n'.i.written} {n'.log.length}" :: go n' rest
+        | _ => "bad-op" :: go n rest
+  "new" :: go (Nest.init oh ih) lines
 
 end Flamego.Driver.Writer
